@@ -15,3 +15,6 @@ package taddfields
 //@   modifies record.Fields[:], tf.buffer, mem(byte)
 //@   ensures  result == base.PASS
 //@   loop 1: invariant -1 <= rangeindex && rangeindex < len(tf.fieldPairs) && fields === record.Fields
+//@   loop 1: step[destination-set-to-a-non-empty-expansion-kept-for-an-empty-one] forall k int :: 0 <= k && k < len(record.Fields) && k == tf.fieldPairs[rangeindex].destination ==>
+//@        (len(value) > 0 ==> record.Fields[k] === value) && (len(value) == 0 ==> record.Fields[k] === prev(record.Fields[k]))
+//@   loop 1: step[other-fields-untouched] forall k int :: 0 <= k && k < len(record.Fields) && k != tf.fieldPairs[rangeindex].destination ==> record.Fields[k] === prev(record.Fields[k])
